@@ -754,7 +754,7 @@ func TestC11(t *testing.T) {
 	h.Assume("vt:mark (harness primitive) records the daemon that runs; Instance.SlotValue reads an instance variable")
 	h.Assume("undefflavor / Package.Remove are used only to discard the flavors of a finished case (names are never reused)")
 
-	h.RunProp(t, history, h.N(20000, 150000))
+	h.RunProp(t, history, h.N(20000, 60000))
 	if os.Getenv("C11_NOENUM") != "" { // development aid
 		return
 	}
